@@ -5,6 +5,7 @@ compression on and off.  Oracles: (1) lossless core: every path delivers exactly
 serializer's mapping twice changes nothing; (4) what the server method received / the proxy returned equals the locally computed mapping.
 modes: quick | thorough | find      output: last line = JSON report"""
 import datetime
+import os
 import decimal
 import json
 import math
@@ -320,6 +321,35 @@ def check_wire(w, name, ser, v, lossless, compression):
     return None
 
 
+TIMEZONES = ["EST5", "XYZ-5:30", "UTC0"]       # POSIX TZ strings (no tz database needed): UTC-5, UTC+5:30, UTC
+DATES = [datetime.datetime(1969, 7, 20, 20, 17, 40), datetime.datetime(1900, 1, 1, 0, 0, 0), datetime.datetime(1970, 1, 1, 0, 0, 0),
+         datetime.datetime(2020, 5, 17, 13, 45, 59, 123457), datetime.datetime(1999, 12, 31, 23, 59, 59), datetime.date(1900, 1, 1),
+         datetime.date(1969, 12, 31), [datetime.datetime(1955, 11, 5, 6, 0, 0)], {"k": (datetime.datetime(1912, 6, 23, 1, 2, 3),)}]
+
+
+def check_timezones(sers):
+    """date / datetime values (also before 1970) must map the same way whatever the local time zone of the process is"""
+    runs, fail = 0, None
+    saved = os.environ.get("TZ")
+    try:
+        for tz in TIMEZONES:
+            os.environ["TZ"] = tz
+            time.tzset()
+            for name, ser in sers:
+                for v in DATES:
+                    runs += 1
+                    r = check_local(name, ser, v, False)
+                    if r and fail is None:
+                        fail = dict(r, timezone=tz)
+    finally:
+        if saved is None:
+            os.environ.pop("TZ", None)
+        else:
+            os.environ["TZ"] = saved
+        time.tzset()
+    return runs, fail
+
+
 def main(mode):
     t0 = time.time()
     rnd = random.Random(1)
@@ -343,6 +373,9 @@ def main(mode):
             fail = fail or check_objects(name, ser, v)
         if fail is not None and mode == "find":
             break
+    if fail is None:
+        tz_runs, fail = check_timezones(sers)
+        runs += tz_runs
     if fail is None:
         w = Wire()
         try:
